@@ -76,9 +76,8 @@ func (c *Cache[K, V]) Set(key K, val V, d time.Duration) error {
 	if item != nil && err == nil {
 		return fmt.Errorf("item with key '%v' already exists. Use the Update method", key)
 	}
-	c.add(key, val, d)
 
-	return nil
+	return c.add(key, val, d)
 }
 
 // SetDefault adds a new item into the cache with the default expiration time.
